@@ -7,7 +7,8 @@ import UvModel.StreamR
     allocs <n|0>...                alloc_cb answers per call (0 = refusal); afterwards 65536
     script <k> <stop|start|close>...   ops of the k-th read_cb invocation
     start | stop | close           uv_read_start / uv_read_stop / uv_close from the main program
-    run <mask> <outcome>...        uv_run(NOWAIT): epoll events for the descriptor (0 = not reported),
+    run <mask> <outcome>...        uv_run(NOWAIT): epoll events for the descriptor (0 = not reported; +65536 = the
+                                   watcher is armed for POLLOUT by a queued write),
                                    result of every read/recvmsg call (n ≥ 0 bytes, or -errno)
     peer w <n> | peer fd <n>       the peer writes n pattern bytes (fd: with a descriptor attached)
     peer shut | peer close         the peer half-closes / closes
@@ -68,7 +69,8 @@ def parseOutcome (w : String) : Option Outcome :=
 
 def parseMask (w : String) : Option PollEv :=
   w.toNat?.map fun m =>
-    { inn := m % 2 = 1, out := (m / 4) % 2 = 1, err := (m / 8) % 2 = 1, hup := (m / 16) % 2 = 1 }
+    { inn := m % 2 = 1, out := (m / 4) % 2 = 1, err := (m / 8) % 2 = 1, hup := (m / 16) % 2 = 1,
+      wantOut := (m / 65536) % 2 = 1 }
 
 def apply (d : DS) (echo : String) (o : Op) : DS × List String :=
   let s' := stepOp (user d) d.s o
@@ -89,6 +91,7 @@ def step (d : DS) : List String → DS × List String
   | ["start"] => apply d "op start" .start
   | ["stop"] => apply d "op stop" .stop
   | ["close"] => apply d "op close" .close
+  | ["wbig"] => (d, ["op wbig"])        -- a large uv_write: write side only (its effect on POLLOUT arrives with `run`)
   | "run" :: mask :: outs =>
     match parseMask mask, allSome (outs.map parseOutcome) with
     | some ev, some reads =>
